@@ -143,9 +143,8 @@ e = Enc(8).u8(0x02, 3, 40).named(9)
 save("em_const", e)
 e = Enc(8).u8(0x0B, 3, 41).rawval(bytes(range(3, 35))).rawval(b"\x05" * 32)
 save("em_const_xonly", e)
-for n_code, sk, name in (((1 << 1) | 0, 3, "pippenger88"), ((7 << 1) | 0, 7, "large236"), ((0 << 1) | 0, 0, "small3"), ((2 << 1), 5, "partial")):
-    e = Enc(9).u8(n_code).u8(1).u32(0xC0FFEE).named(27)
+for n_code, skind, name in (((1 << 1) | 0, 0, "pippenger88"), ((7 << 1) | 0, 7, "large236"), ((0 << 1) | 0, 1, "small3_noscratch"), ((2 << 1), 5, "partial"), ((5 << 1), 3, "strauss137")):
+    e = Enc(9).u8(n_code).u8(1, skind, 0x80).u16(3).u32(0xC0FFEE).named(27)
     e.u8(3, 0x64, 0x83, 0x25, 0, 0x01, 2, 0x42)                 # a few explicit (point, scalar) descriptors, the rest comes from the PRNG
-    e.u8(sk)
     save("mm_" + name, e)
 print("wrote", len(os.listdir(OUT)), "seeds to", os.path.normpath(OUT))
